@@ -8,8 +8,10 @@ package props
 import (
 	"encoding/binary"
 	"fmt"
+	"os"
 	"sort"
 	"strings"
+	"time"
 
 	"verif/harness/internal/gen/bytesmut"
 	"verif/harness/internal/mon"
@@ -65,7 +67,16 @@ func runC02(c *mon.Ctx) {
 	}
 	c.Note("bounds (internal/mon/bounds.go): source calls <= %d + %d*len(b); bytes delivered <= %d * that; TotalAlloc delta <= %d MiB + %d*len(b); RLIMIT_AS %d GiB per worker; hard per-case bound 330 s in isolation",
 		mon.C02CallsConst, mon.C02CallsPerByte, mon.C02BytesPerCall, mon.C02AllocConst>>20, mon.C02AllocPerByte, mon.C02AddressSpace>>30)
+	t0 := time.Now()
 	S := c02seeds()
+	timing := os.Getenv("C02_TIMING") != ""
+	lap := func(what string) {
+		if timing {
+			fmt.Fprintf(os.Stderr, "C02 shard %d: %-12s %6.2fs\n", c.Shard, what, time.Since(t0).Seconds())
+			t0 = time.Now()
+		}
+	}
+	lap("seed set")
 	for _, n := range S.notes {
 		c.Note("%s", n)
 	}
@@ -109,6 +120,7 @@ func runC02(c *mon.Ctx) {
 		}
 		k.Sample(map[string]any{"decoder": sd.dec, "seed": sd.origin, "bytes": len(sd.data), "accepted": ok})
 	})
+	lap("seeds")
 
 	// (2) truncation at every length (seeds < 2 KiB), sampled otherwise
 	c.Stratum("truncate", len(S.all), func(k *mon.Case) {
@@ -146,6 +158,7 @@ func runC02(c *mon.Ctx) {
 		k.DistinctCount(len(lens))
 		k.Sample(map[string]any{"decoder": sd.dec, "seed": sd.origin, "truncations": len(lens), "still accepted": acc})
 	})
+	lap("truncate")
 
 	// (3) exhaustive 16-bit field sweep over the small seeds: every aligned
 	// field x every interesting value
@@ -175,9 +188,10 @@ func runC02(c *mon.Ctx) {
 		k.DistinctCount(cnt)
 		k.Class("fieldsweep:seeds")
 	})
+	lap("fieldsweep")
 
 	// (4) random mutants
-	c.Stratum("mutants", c.N(48000, 2400000), func(k *mon.Case) {
+	c.Stratum("mutants", c.N(160000, 12000000), func(k *mon.Case) {
 		r := k.Rng
 		dec := c02decoders[k.Index%len(c02decoders)]
 		idx := S.byDec[dec]
@@ -215,9 +229,10 @@ func runC02(c *mon.Ctx) {
 			k.Class("mutant-accepted:" + dec)
 		}
 	})
+	lap("mutants")
 
 	// (5) random bytes behind a valid magic / version prefix
-	c.Stratum("magic", c.N(9000, 360000), func(k *mon.Case) {
+	c.Stratum("magic", c.N(32000, 2000000), func(k *mon.Case) {
 		r := k.Rng
 		dec := c02decoders[k.Index%len(c02decoders)]
 		pp := c02prefixes[dec]
@@ -233,41 +248,40 @@ func runC02(c *mon.Ctx) {
 		c02run(k, dec, b, fmt.Sprintf("%d random bytes behind prefix % x", n, p))
 		k.DistinctBytes(b)
 	})
+	lap("magic")
 
 	// (6) amplifiers, three sizes each
 	c.Stratum("amplifiers", 3*len(c02amps), func(k *mon.Case) {
 		a := c02amps[k.Index/3]
 		size := k.Index % 3
+		ta := time.Now()
 		b := a.build(size, c.Thorough())
 		if len(b) > maxLen {
 			k.Skip("amplifier larger than the tier's input limit")
 			return
 		}
 		origin := fmt.Sprintf("amplifier %s size %d", a.name, size)
-		d := c02decode[a.dec]
-		// growth record (unobserved run): work and allocation per size
-		k.Input(b)
-		var src *mon.CountingSource
-		var err error
-		al := mon.MeasureAlloc(func() {
-			mon.Try(func() { _, src, err = d(b) })
-		})
+		ok := c02run(k, a.dec, b, origin)
+		// growth record: input size, allocation and source calls per size
+		al := c02last.alloc
 		tag := fmt.Sprintf("amp:%s:size%d:", a.name, size)
 		k.Max(tag+"input-bytes", float64(len(b)))
 		k.Max(tag+"alloc-bytes", float64(al))
-		if src != nil {
-			k.Max(tag+"source-calls", float64(src.Calls))
+		if c02last.hasSrc {
+			k.Max(tag+"source-calls", float64(c02last.calls))
 		}
-		_ = err
-		ok := c02run(k, a.dec, b, origin)
 		k.DistinctBytes(b)
 		k.Class("amplifier:" + a.name)
+		if timing {
+			fmt.Fprintf(os.Stderr, "C02 amp %s size %d: %.2fs\n", a.name, size, time.Since(ta).Seconds())
+		}
 		k.Sample(map[string]any{"amplifier": a.name, "size": size, "bytes": len(b), "alloc": al, "accepted": ok})
 	})
+	lap("amplifiers")
 
 	// (7) whole files: one table of a font replaced by a mutant (or dropped,
 	// duplicated under another tag, truncated); CFF-in-sfnt mutants
-	c.Stratum("fonts", c.N(2400, 96000), func(k *mon.Case) {
+	c.Stratum("fonts", c.N(9600, 480000), func(k *mon.Case) {
 		r := k.Rng
 		if len(S.fonts) == 0 {
 			k.Skip("no fonts")
@@ -281,7 +295,7 @@ func runC02(c *mon.Ctx) {
 				break
 			}
 		}
-		if len(fn.data) > maxLen/2 {
+		if len(fn.data) > maxLen {
 			k.Skip("font larger than the tier's input limit")
 			return
 		}
@@ -358,7 +372,14 @@ func runC02(c *mon.Ctx) {
 			b = b[:maxLen]
 		}
 		origin := fn.name + ": " + desc
+		if r.IntN(8) == 0 {
+			// sfnt.Read also accepts a plain io.Reader (the file is then read into memory first)
+			c02sfntPlain = true
+			origin += " (plain io.Reader)"
+			k.Class("fonts:plain-reader")
+		}
 		ok := c02run(k, dSfnt, b, origin)
+		c02sfntPlain = false
 		if fn.file.Scaler == 0x4F54544F {
 			k.Class("fonts:cff-in-sfnt")
 			if ok {
@@ -376,6 +397,7 @@ func runC02(c *mon.Ctx) {
 		k.DistinctBytes(b)
 		k.Sample(map[string]any{"font": fn.name, "change": desc, "bytes": len(b), "accepted": ok})
 	})
+	lap("fonts")
 
 	for _, d := range c02decoders {
 		c.Require("dec:"+d+":accept", "dec:"+d+":reject")
